@@ -7,5 +7,5 @@ trap 'git -C /repo worktree remove --force $repo; rm -rf $scratch' EXIT
 ( cd $repo && git apply $patch ) || { echo "patch does not apply"; exit 3; }
 for seed in "$@"; do
   VERIF_SEED=$seed VERIF_REPO=$repo VERIF_NOEVIDENCE=1 /verif/check $prop --tier quick >$scratch/o.txt 2>&1; rc=$?
-  echo "seed $seed: rc=$rc $(tail -1 $scratch/o.txt)"
+  echo "seed $seed: rc=$rc $(tail -1 $scratch/o.txt)"; grep -m2 ">> " $scratch/o.txt | cut -c1-400
 done
